@@ -15,9 +15,11 @@ namespace FB
 
 /-- `operation.py`: the recorded operations of a build -/
 inductive Op where
-  | simple (q : Query) (ret : Json) (exc : Option OSErr)
+  /-- `ans` is a ghost field (not in the cache file): what the user code saw, e.g. the content it read -/
+  | simple (q : Query) (ret : Json) (exc : Option OSErr) (ans : UAns)
+  /-- `content` is a ghost field: the bytes the function wrote into the target -/
   | buildFile (path : Path) (cmp : Cmp) (fname : String) (args kwargs : Json) (subs : List Op)
-      (ret : Json) (cmpRes : Json) (raised setupFailed : Bool)
+      (ret : Json) (cmpRes : Json) (raised setupFailed : Bool) (content : String)
   | subbuild (fname : String) (args kwargs : Json) (subs : List Op) (ret : Json)
       (raised setupFailed : Bool)
 deriving Inhabited
@@ -39,9 +41,9 @@ mutual
 /-- `_operations_from_json`: the registered (`setup_failed = False`) complex operations of a forest,
     children before parents, in file order -/
 def registered : Op → List Op
-  | .simple _ _ _ => []
-  | .buildFile p c f a k subs r cr raised sf =>
-    registeredL subs ++ (if sf then [] else [.buildFile p c f a k subs r cr raised sf])
+  | .simple _ _ _ _ => []
+  | .buildFile p c f a k subs r cr raised sf ct =>
+    registeredL subs ++ (if sf then [] else [.buildFile p c f a k subs r cr raised sf ct])
   | .subbuild f a k subs r raised sf =>
     registeredL subs ++ (if sf then [] else [.subbuild f a k subs r raised sf])
 def registeredL : List Op → List Op
@@ -50,7 +52,7 @@ def registeredL : List Op → List Op
 end
 
 def Op.isFileAt (p : Path) : Op → Bool
-  | .buildFile q _ _ _ _ _ _ _ _ _ => q = p
+  | .buildFile q _ _ _ _ _ _ _ _ _ _ => q = p
   | _ => false
 
 def Op.isSubWith (key : H) : Op → Bool
@@ -67,7 +69,7 @@ def CacheRec.getSub (c : CacheRec) (key : H) : Option Op :=
 /-- `Cache.created_files()` -/
 def CacheRec.outputs (c : CacheRec) : List Path :=
   (registeredL c.roots).filterMap fun
-    | .buildFile p _ _ _ _ _ _ _ false _ => some p
+    | .buildFile p _ _ _ _ _ _ _ false _ _ => some p
     | _ => none
 
 def CacheRec.toRec (c : CacheRec) : Rec :=
@@ -121,26 +123,25 @@ def adopt (s : KSt) (p : Path) (made : List Path) : KSt :=
 /-- a recorded failure of `build_file p` re-enacted: the target and the directories made for it go -/
 def unwind (s : KSt) (p : Path) (made : List Path) : KSt :=
   let sp := { s.sp with inProg := s.sp.inProg.erase p }
-  let fs1 := if sp.fs.isFile p then sp.fs.erase p else sp.fs
-  let fs2 := Spec.rmEmpty fs1 made
+  let fs2 := Spec.rmEmpty sp.fs made
   { s with sp := { sp with fs := fs2, createdDirs := (made.filter fs2.isDir) ++ sp.createdDirs } }
 
 mutual
 /-- `_is_build_file_operation_cached` / `_is_subbuild_operation_cached` /
     `_is_simple_operation_cached`, with the state after regarding the operation as performed -/
 def replayOp : Op → KSt → Option KSt
-  | .simple q ret exc, s =>
+  | .simple q ret exc _, s =>
     match View.recVal s.sp.dirSize (Spec.visible s.sp) q, exc with
     | .ok v, none => if isEqual v ret then some s else none
     | .error e, some e' => if e = e' ∧ isEqual .null ret then some s else none
     | _, _ => none
-  | .buildFile path cmp fname _ _ subs _ cmpRes raised setupFailed, s =>
+  | .buildFile path cmp fname _ _ subs _ cmpRes raised setupFailed _, s =>
     if !versionOk s fname then none
     else if !raised && !outputMatches s path cmp cmpRes then none
     else if setupFailed then none
     else if s.sp.claimedFiles.contains path || path == s.sp.cacheFile then none
     else if raised && View.exists_ (Spec.visible s.sp) path then none
-    else match Spec.dirsToMake (Spec.visible s.sp) s.sp.cacheFile path.dropLast with
+    else match Spec.dirsToMake (Spec.visible s.sp) s.sp.cacheFile s.sp.inProg path.dropLast with
       | .error _ => none
       | .ok made =>
         let sp := s.sp
@@ -170,7 +171,7 @@ end
 def lookupFile (s : KSt) (path : Path) (cmp : Cmp) (fname : String) (args kwargs : Json)
     (made : List Path) : Option (Op × KSt) :=
   match s.old.getFile path with
-  | some (.buildFile _ rcmp rfname rargs rkwargs subs ret cmpRes false _) =>
+  | some (.buildFile _ rcmp rfname rargs rkwargs subs ret cmpRes false _ content) =>
     if rfname = fname && versionOk s fname && isEqual rargs args && isEqual rkwargs kwargs
         && outputMatches s path rcmp cmpRes then
       match replayOps subs s with
@@ -178,7 +179,7 @@ def lookupFile (s : KSt) (path : Path) (cmp : Cmp) (fname : String) (args kwargs
       | some s2 =>
         match cmpNow s2 path cmp with
         | .null => none
-        | now => some (.buildFile path cmp fname args kwargs subs ret now false false, adopt s2 path made)
+        | now => some (.buildFile path cmp fname args kwargs subs ret now false false content, adopt s2 path made)
     else none
   | _ => none
 
@@ -205,28 +206,30 @@ def run : Prog → Option Path → KSt → CallRes × KSt × List Op
   | .query q k, t, s =>
     let vfs := Spec.visible s.sp
     let rv := View.recVal s.sp.dirSize vfs q
-    let (r, s', ops) := run (k (View.answer s.sp.dirSize vfs q)) t s
+    let ans := View.answer s.sp.dirSize vfs q
+    let (r, s', ops) := run (k ans) t s
     let op := match rv with
-      | .ok v => Op.simple q v none
-      | .error e => Op.simple q .null (some e)
+      | .ok v => Op.simple q v none ans
+      | .error e => Op.simple q .null (some e) ans
     (r, s', op :: ops)
   | .write b k, t, s =>
     match t with
-    | some p => run k t (liftSp s fun sp => { sp with fs := sp.fs.write p b sp.clock, clock := sp.clock + 1 })
+    | some p => run k t (liftSp s fun sp => { sp with pending := (p, b, sp.clock) :: sp.pending, clock := sp.clock + 1 })
     | none => run k t s
   | .buildFile path cmp fname args kwargs body k, t, s =>
     match Spec.bfSetup s.sp path with
     | .error e =>
       let s := if e = .os .other then liftSp s fun sp => { sp with failFiles := sp.failFiles.erase path } else s
+      let s := liftSp s fun sp => { sp with obligation := sp.obligation || sp.inProg.any (fun c => Spec.properAncestor c path) }
       let (r, s', ops) := run (k (.error e)) t s
-      (r, s', .buildFile path cmp fname args kwargs [] .null .null true true :: ops)
+      (r, s', .buildFile path cmp fname args kwargs [] .null .null true true "" :: ops)
     | .ok (sp1, made) =>
       -- `_make_room` / `_make_dirs`: leftovers that are physically in the way of the target or of its
       -- parent directories are moved aside, so no record can vouch for them any more
       let s1 := { s with sp := sp1, shelf := clearWay s.shelf path made }
       match lookupFile s1 path cmp fname args kwargs made with
       | some (op, s2) =>
-        let ret := match op with | .buildFile _ _ _ _ _ _ r _ _ _ => r | _ => .null
+        let ret := match op with | .buildFile _ _ _ _ _ _ r _ _ _ _ => r | _ => .null
         let (r, s3, ops) := run (k (.ok ret)) t s2
         (r, s3, op :: ops)
       | none =>
@@ -238,11 +241,13 @@ def run : Prog → Option Path → KSt → CallRes × KSt × List Op
         let (r', sp3) := Spec.bfFinish s2.sp path made rb
         let s3 := { s2 with sp := sp3 }
         let op := match r' with
-          | .ok j => Op.buildFile path cmp fname args kwargs subs j (cmpNow s3 path cmp) false false
+          | .ok j =>
+            let content := match s3.sp.fs.get path with | some (.file b _) => b | _ => ""
+            Op.buildFile path cmp fname args kwargs subs j (cmpNow s3 path cmp) false false content
           | .error _ =>
             -- `operation.return_value` is assigned before the "didn't create that file" check
             let kept := match rb with | .ok j => j | .error _ => .null
-            Op.buildFile path cmp fname args kwargs subs kept .null true false
+            Op.buildFile path cmp fname args kwargs subs kept .null true false ""
         let (r, s4, ops) := run (k r') t s3
         (r, s4, op :: ops)
   | .subbuild fname args kwargs body k, t, s =>
@@ -305,9 +310,9 @@ deriving Inhabited
 namespace Impl
 
 def isComplexRegistered : Op → Bool
-  | .buildFile _ _ _ _ _ _ _ _ _ sf => !sf
+  | .buildFile _ _ _ _ _ _ _ _ _ sf _ => !sf
   | .subbuild _ _ _ _ _ _ sf => !sf
-  | .simple _ _ _ => false
+  | .simple _ _ _ _ => false
 
 /-- `FileBuilder.build_versioned` -/
 def build (w : KWorld) (cf : Path) (buildName : String) (versions : List (String × Json))
@@ -323,7 +328,7 @@ def build (w : KWorld) (cf : Path) (buildName : String) (versions : List (String
     let sp0 : SpecSt := { fs := fs0, cacheFile := cf, dirSize := w.dirSize, clock := w.clock,
                           failFiles := failFiles, failSubs := failSubs }
     let rolledBack : FS := Spec.mkdirs w.fs (old.createdDirs.mergeSort (fun a b => a.length ≤ b.length))
-    match (if abort = 1 then .error .other else Spec.dirsToMake (Spec.visible sp0) cf cf.dropLast) with
+    match (if abort = 1 then .error .other else Spec.dirsToMake (Spec.visible sp0) cf [] cf.dropLast) with
     | .error e => { res := .error (.os e), world := { w with fs := rolledBack } }
     | .ok cds =>
       let s1 : KSt :=
